@@ -17,7 +17,7 @@ import (
 type verifFailExpr struct{}
 
 func (verifFailExpr) String() string          { return "fail" }
-func (verifFailExpr) Source() parser.Scanner  { return parser.Scanner{} }
+func (verifFailExpr) Source() parser.Scanner  { return *parser.NewScanner("") }
 func (verifFailExpr) Eval(context.Context, rel.Scope) (rel.Value, error) {
 	return nil, errors.New("stub failure")
 }
@@ -51,7 +51,7 @@ func VerifC17History() {
 	states := []int{-1} // -1 stands for the initial {}
 	var obs []*verifObs
 	next := 1
-	root := rel.NewIdentExpr(parser.Scanner{}, Root)
+	root := rel.NewIdentExpr(*parser.NewScanner(""), Root)
 	for k := 0; k < nops; k++ {
 		op := verifChoice(opCount)
 		// Known finding: an observer whose expression or callback fails makes the engine call
